@@ -2185,8 +2185,11 @@ class Model:
             cache=cache,
         )
         if include_readouts:
+            # like derived quantities, readouts may name data sets (removed from raw by _get_args)
+            scope = self._data | raw
             for name, ro in self._readouts.items():  # FIXME: order?
-                ro.calculate_inpl(name, raw)
+                ro.calculate_inpl(name, scope)
+                raw[name] = scope[name]
         args = pd.Series(raw, dtype=float)
         return args.loc[
             self.get_arg_names(
@@ -2219,8 +2222,11 @@ class Model:
                 cache=cache,
             )
             if include_readouts:
+                # like derived quantities, readouts may name data sets (removed from args by _get_args)
+                scope = self._data | args
                 for name, ro in self._readouts.items():  # FIXME: order?
-                    ro.calculate_inpl(name, args)
+                    ro.calculate_inpl(name, scope)
+                    args[name] = scope[name]
             args_by_time[time] = args
         return args_by_time
 
